@@ -578,7 +578,11 @@ impl<K: Kmer, D: Debug> DebruijnGraph<K, D> {
         }
 
         for (target, dir, _) in node.r_edges() {
-            if target > node.node_id as usize {
+            // a link from the right side back into the right side of the same node is only
+            // visible from here, so it has to be written although target == node_id
+            if target > node.node_id as usize
+                || (target == node.node_id as usize && matches!(dir, Dir::Right))
+            {
                 let to_dir = match dir {
                     Dir::Left => "+",
                     Dir::Right => "-",
